@@ -4,6 +4,8 @@ CONSTANTS
   Children = {"c", "d"}
   Vals = {"1"}
   MaxHist = 4
+  SkipOnlyAtTail = FALSE
+  MaxCrash = 2
   SkipConflictOnReplay = FALSE
 INVARIANTS RecoverOK PrefixState CleanRestart TailLoss
 CHECK_DEADLOCK FALSE
